@@ -100,6 +100,15 @@ class History:
         if op.startswith("t"):
             self.clock.t += _dt.timedelta(seconds=float(op[1:]))
             return
+        if op.startswith("jump"):
+            # a long stretch of the process's life is skipped: ids issued before it stay in the record, the counter stands
+            # where 2^16 / 2^31 / 2^32 generations would have brought it (the carry into the high field happens in between)
+            from bromelia._internal_utils import SessionHandler
+            target = {"jump16": 2 ** 16 - 3, "jump31": 2 ** 31 - 3, "jump32": 2 ** 32 - 3}[op]
+            if SessionHandler.id < target:
+                SessionHandler.id = target
+                self.acc.counters["long_uptime_histories"] += 1
+            return
         ident = IDS[int(op[-1])]
         if op.startswith("sid"):
             self.record(SessionIdAVP(ident).data, ident, how)
@@ -202,7 +211,7 @@ def run_batch(b):
         acc.extra["distinct_sequences"] = acc.evaluations
         acc.sample({"exhaustive_length": L, "first_ops": b["first"], "example": list(seq)})
     else:
-        ops = OPS + ["sid2", "sid3", "upd2", "upd3", "upd4", "msg1", "msg2", "acct1", "t5", "t0.3", "new2", "nxt2", "nxt3", "raw1", "raw2", "both0", "both1", "both3"]
+        ops = OPS + ["sid2", "sid3", "upd2", "upd3", "upd4", "msg1", "msg2", "acct1", "t5", "t0.3", "new2", "nxt2", "nxt3", "raw1", "raw2", "both0", "both1", "both3", "jump16", "jump31", "jump32", "jump32"]
         for k in range(b["n"]):
             # every fourth history runs in another clock era (NTP seconds roll over on 2036-02-07 06:28:16) and/or
             # in a process that has been up for a long time
